@@ -331,7 +331,21 @@ def r18_4(ctx):
 
 def r18_5(ctx):
     p = ctx.p
-    au = p.func("auth.authenticate")
+    au0 = p.func("auth.authenticate")
+    au = au0
+    # the reload may live in a helper of the module that authenticate() awaits before it looks at USERS
+    if not any(call_name(c) == "read_users_from_file" for c in calls_in(au0.node)):
+        for f2 in p.funcs_in("auth"):
+            if f2 is not au0 and any(call_name(c) == "read_users_from_file" for c in calls_in(f2.node)) and f2.name != "read_users_from_file":
+                calls = [c for c in calls_in(au0.node) if call_name(c) == f2.name]
+                if calls:
+                    g0 = ctx.cfg(au0)
+                    hn = {n.id for n in g0.nodes if n.ast is not None and n.kind == "stmt" and any(call_name(c) == f2.name for c in calls_in(n.ast))}
+                    users = [n.id for n in g0.nodes if n.ast is not None and n.kind in ("stmt", "test") and "USERS" in norm(n.ast, 400)]
+                    if hn and all(flow.dominated_by(g0, u, lambda n: n in hn) is None for u in users):
+                        au = f2
+                        ctx.analysed(f2)
+                        ctx.ok("R18.5", where(au0), f"the reload ({f2.name}) is awaited before USERS is consulted")
     g = ctx.cfg(au)
     # the password file is re-read whenever it is newer than what we hold, and it is marked as held only after the re-read
     # returned (an await: other logins run meanwhile and must not find the mark already set; a failed read must not set it)
@@ -357,6 +371,9 @@ def r18_5(ctx):
         ctx.ok("R18.5", where(au), "re-read exactly when the file is newer than the copy held", nontrivial=False)
     else:
         ctx.bad("R18.5", au.module, au.qual, "if mtime > PW_FILE_LAST_TIMESTAMP", "the password file is no longer re-read exactly when it changed: a new password is not picked up / the old one keeps working", au.node.lineno)
+    reload_host = au
+    au = au0
+    g = ctx.cfg(au)
     t = norm(au.node, 8000)
     rets = [n.id for n in g.nodes if n.kind == "return"]
     from .common import pm_of
@@ -402,7 +419,8 @@ def r18_5(ctx):
         ctx.ok("R18.5", where(ru), "a reload replaces every parsed entry (new hash) and drops removed users")
     else:
         ctx.bad("R18.5", ru.module, ru.qual, "USERS[username] = users[username]", "a password-file reload no longer replaces the stored entry with the newly parsed one: an old (changed or disabled) password keeps working until restart", ru.node.lineno)
-    if pau.has("mtime = await aiofiles.os.path.getmtime(PW_FILE_LOCATION)") and pau.has("if mtime > PW_FILE_LAST_TIMESTAMP:\n    ...\n    await read_users_from_file(PW_FILE_LOCATION)\n    ..."):
+    pau_r = pm_of(p, reload_host)
+    if pau_r.has("mtime = await aiofiles.os.path.getmtime(PW_FILE_LOCATION)") and pau_r.has("if mtime > PW_FILE_LAST_TIMESTAMP:\n    ...\n    await read_users_from_file(PW_FILE_LOCATION)\n    ..."):
         ctx.ok("R18.5", where(au), "password file re-read when its mtime advanced", nontrivial=False)
     else:
         ctx.bad("R18.5", au.module, au.qual, "reload on mtime", "authenticate no longer reloads a changed password file", au.node.lineno)
